@@ -4,6 +4,13 @@ import httpgen as G
 import vlib
 from vlib import hexs, unhex
 
+# megabyte chunks go through the extracted model, which recurses over lists: only where the stack limit can be raised (lib/vlib.run_cases)
+def _deep_stack():
+    import resource
+    hard = resource.getrlimit(resource.RLIMIT_STACK)[1]
+    return hard == resource.RLIM_INFINITY or hard >= (1 << 30)
+DEEP_STACK = _deep_stack()
+
 NIDS = 48
 
 
@@ -51,6 +58,8 @@ def gen_components(chk):
             chunks = []
             for _ in range(nch):
                 sz = rng.choice([1, 2, 9, 15, 16, 17, 255, 256, 4095, 4096, 65535, 70000]) if not long_stream else rng.choice([1, 2, 3])
+                if not long_stream and rng.random() < 0.04 and DEEP_STACK:
+                    sz = rng.choice([65536, 1048575, 1048576])      # six hex digits, up to the receiver's limit (the default maximum chunk size)
                 ext = b"" if rng.random() < 0.6 else G.token(rng, 1, 5) + (b"=" + G.token(rng, 1, 4) if rng.random() < 0.5 else b"")
                 chunks.append((bytes([rng.randrange(256)]) * sz, ext))
             lext = b"" if rng.random() < 0.7 else G.token(rng, 1, 5)
@@ -210,7 +219,7 @@ def run(chk):
                            "expected_events": exp, "got_events": got}, True, sig)
     chk.cov["rule"] = ("components -> real encoders (tx_request::message, tx_response::message, chunk_header::to_string, last_chunk::to_string, header_field::to_header for all 48 ids) "
                        "-> real receivers; the delivered start line, header map, body, chunk sizes/extensions/data and trailers must equal the components. token header names with digits and "
-                       "punctuation, values over all bytes but CR/LF, bodies 0..2000, chunk sizes across the hex widths 1..5 (1..70000 bytes), extensions, trailers. The model's encoders and "
+                       "punctuation, values over all bytes but CR/LF, bodies 0..2000, chunk sizes across the hex widths 1..6 (1..1048576 bytes = the receiver's limit), extensions, trailers. The model's encoders and "
                        "receivers run on the same inputs (two correspondences). non-trivial = all; distinct = distinct components")
     chk.cov["input_distribution"] = dist
     chk.cov["samples"] = [pairs[j][0][:200] + " => " + pairs[j][2][:200] for j in (0, len(pairs) // 2) if j < len(pairs)]
